@@ -14,22 +14,22 @@ import common as C
 
 EXH = {  # exhaustive writer bounds per tier
     "quick": dict(MaxTokens=4, MaxDepth=2, MaxBad=1, MaxTop=2, MaxDtd=2, MaxTrunc=2, Wide="FALSE",
-                  NStylesGood=4, NStylesBad=2),
+                  NStylesGood=4, NStylesBad=2, NLexStyles=6),
     "thorough": dict(MaxTokens=5, MaxDepth=3, MaxBad=1, MaxTop=2, MaxDtd=2, MaxTrunc=2, Wide="FALSE",
-                     NStylesGood=6, NStylesBad=2),
+                     NStylesGood=6, NStylesBad=2, NLexStyles=6),
 }
 SIM = {  # -simulate runs: (constants, number of behaviours, depth)
     "quick": [
         (dict(MaxTokens=14, MaxDepth=3, MaxBad=0, MaxTop=3, MaxDtd=4, MaxTrunc=0, Wide="TRUE",
-              NStylesGood=3, NStylesBad=1), 400, 16),
+              NStylesGood=3, NStylesBad=1, NLexStyles=3), 400, 16),
         (dict(MaxTokens=12, MaxDepth=3, MaxBad=2, MaxTop=3, MaxDtd=3, MaxTrunc=6, Wide="TRUE",
-              NStylesGood=1, NStylesBad=2), 300, 14),
+              NStylesGood=1, NStylesBad=2, NLexStyles=2), 300, 14),
     ],
     "thorough": [
         (dict(MaxTokens=24, MaxDepth=4, MaxBad=0, MaxTop=4, MaxDtd=6, MaxTrunc=0, Wide="TRUE",
-              NStylesGood=6, NStylesBad=1), 6000, 26),
+              NStylesGood=6, NStylesBad=1, NLexStyles=6), 6000, 26),
         (dict(MaxTokens=16, MaxDepth=3, MaxBad=2, MaxTop=3, MaxDtd=4, MaxTrunc=8, Wide="TRUE",
-              NStylesGood=1, NStylesBad=3), 6000, 18),
+              NStylesGood=1, NStylesBad=3, NLexStyles=3), 6000, 18),
     ],
 }
 JUDGE_FAST_CAP = {"quick": 1500, "thorough": 12000}   # fast-path events also judged by TLC
